@@ -211,6 +211,24 @@ pub fn lax_sliced(base: &[u8], p: &LaxSlicedPacket, k: usize) -> String {
     )
 }
 
+/// protocol type of a Linux SLL header: variant tag and its u16
+pub fn sll_ptype(p: LinuxSllProtocolType) -> String {
+    let tag = match p {
+        LinuxSllProtocolType::Ignored(_) => "ign",
+        LinuxSllProtocolType::NetlinkProtocolType(_) => "netlink",
+        LinuxSllProtocolType::GenericRoutingEncapsulationProtocolType(_) => "gre",
+        LinuxSllProtocolType::EtherType(_) => "et",
+        LinuxSllProtocolType::LinuxNonstandardEtherType(_) => "nonstd",
+    };
+    format!("{}:{}", tag, u16::from(p))
+}
+pub fn sll_slice_err(e: &err::linux_sll::HeaderSliceError) -> String {
+    match e {
+        err::linux_sll::HeaderSliceError::Len(l) => len_err(l),
+        err::linux_sll::HeaderSliceError::Content(c) => sll_err(c),
+    }
+}
+
 // ---- header-struct families ----------------------------------------------------
 pub fn lax_payload(base: &[u8], p: &LaxPayloadSlice) -> String {
     match p {
@@ -230,7 +248,7 @@ pub fn lax_payload(base: &[u8], p: &LaxPayloadSlice) -> String {
         LaxPayloadSlice::Tcp { payload, incomplete } => format!("tcp({},{})", b01(*incomplete), off(base, payload)),
         LaxPayloadSlice::Icmpv4 { payload, incomplete } => format!("icmp4({},{})", b01(*incomplete), off(base, payload)),
         LaxPayloadSlice::Icmpv6 { payload, incomplete } => format!("icmp6({},{})", b01(*incomplete), off(base, payload)),
-        LaxPayloadSlice::LinuxSll(l) => format!("sll({})", off(base, l.payload)),
+        LaxPayloadSlice::LinuxSll(l) => format!("sll({},{})", sll_ptype(l.protocol_type), off(base, l.payload)),
     }
 }
 pub fn strict_payload(base: &[u8], p: &PayloadSlice) -> String {
